@@ -23,9 +23,9 @@ def classify_race(text):
 PROP = {
     "classify_race": classify_race,
     "id": "C07",
-    "lean_targets": ["WmModel.Props.C07Dec", "WmModel.Props.C07Close", "WmModel.Props.C07Locks", "WmModel.Props.C07Term", "WmModel.Props.C05Reg", 'WmModel.Props.C07'],
+    "lean_targets": ["WmModel.Props.C05Live", "WmModel.Props.C07Dec", "WmModel.Props.C07Close", "WmModel.Props.C07Locks", "WmModel.Props.C07Term", "WmModel.Props.C05Reg", 'WmModel.Props.C07'],
     "audit_module": "Audit.C07",
-    "theorems": ["Wm.GcReg.removed_only_after_own_cancel_or_close", "Wm.GcReg.subs_change", "Wm.GcDec.dec_never_panics", "Wm.GcDec.dec_close_never_stuck", "Wm.GcDec.dec_quiescent_closed", "Wm.GcDec.dec_steps_bounded", "Wm.GcDec.dec_close_terminates", "Wm.GcDec.dec_after_close", "Wm.GcDec.dec_forwarding", "Wm.GcDec.dec_one_pump_per_channel", "Wm.GcDec.dec_witness", "Wm.GcReg.close_never_stuck", "Wm.GcReg.quiescent_closed", "Wm.GcReg.thread_steps_bounded", "Wm.GcReg.close_terminates", "Wm.GcReg.after_close_returned", "Wm.GcReg.close_dissolves_deadlock", "Wm.GcReg.writer_excludes_readers", "Wm.GcReg.writers_exclusive", "Wm.GcReg.topic_mutex_exclusive", "Wm.GcReg.publish_and_subscribe_regions_exclusive", "Wm.GcReg.after_close_errors", "Wm.GcReg.close_returned_means_closed", "Wm.GcReg.closed_lock_owner", "Wm.GcSub.internal_steps_bounded", "Wm.GcSub.cur_unsettled_at_sendSel", "Wm.GcReg.registry_never_panics", "Wm.GcReg.publish_after_close_errs", "Wm.GcReg.subscribe_after_close_errs", "Wm.GcReg.writer_unique", 'Wm.GcSub.never_panics', 'Wm.GcSub.close_flags_consistent', 'Wm.GcSub.holder_can_leave_when_closing', 'Wm.GcSub.close_progress', 'Wm.GcSub.outchan_closed_at_most_once', 'Wm.GcSub.closed_is_final'],
+    "theorems": ["Wm.GcReg.nonblocking_no_deadlock", "Wm.GcReg.blocking_deadlock_needs_nested_publish", "Wm.GcReg.closing_no_deadlock", "Wm.GcReg.d11_has_nested_publish", "Wm.GcReg.removed_only_after_own_cancel_or_close", "Wm.GcReg.subs_change", "Wm.GcDec.dec_never_panics", "Wm.GcDec.dec_close_never_stuck", "Wm.GcDec.dec_quiescent_closed", "Wm.GcDec.dec_steps_bounded", "Wm.GcDec.dec_close_terminates", "Wm.GcDec.dec_after_close", "Wm.GcDec.dec_forwarding", "Wm.GcDec.dec_one_pump_per_channel", "Wm.GcDec.dec_witness", "Wm.GcReg.close_never_stuck", "Wm.GcReg.quiescent_closed", "Wm.GcReg.thread_steps_bounded", "Wm.GcReg.close_terminates", "Wm.GcReg.after_close_returned", "Wm.GcReg.close_dissolves_deadlock", "Wm.GcReg.writer_excludes_readers", "Wm.GcReg.writers_exclusive", "Wm.GcReg.topic_mutex_exclusive", "Wm.GcReg.publish_and_subscribe_regions_exclusive", "Wm.GcReg.after_close_errors", "Wm.GcReg.close_returned_means_closed", "Wm.GcReg.closed_lock_owner", "Wm.GcSub.internal_steps_bounded", "Wm.GcSub.cur_unsettled_at_sendSel", "Wm.GcReg.registry_never_panics", "Wm.GcReg.publish_after_close_errs", "Wm.GcReg.subscribe_after_close_errs", "Wm.GcReg.writer_unique", 'Wm.GcSub.never_panics', 'Wm.GcSub.close_flags_consistent', 'Wm.GcSub.holder_can_leave_when_closing', 'Wm.GcSub.close_progress', 'Wm.GcSub.outchan_closed_at_most_once', 'Wm.GcSub.closed_is_final'],
     "tie_theorems": [],
     "harness": "c07",
     "harness_timeout_s": {"quick": 480, "thorough": 2400},
